@@ -141,6 +141,20 @@ func appendFact(out []Fact, v ssa.Value, t bool) []Fact {
 	if u, ok := v.(*ssa.UnOp); ok && u.Op == token.NOT {
 		out = appendFact(out, u.X, !t)
 	}
+	// x == true / x != false / ...: a fact about x itself
+	if b, ok := v.(*ssa.BinOp); ok && (b.Op == token.EQL || b.Op == token.NEQ) {
+		for _, pr := range [][2]ssa.Value{{b.X, b.Y}, {b.Y, b.X}} {
+			if k, ok := pr[1].(*ssa.Const); ok && k.Value != nil && k.Value.Kind() == constant.Bool {
+				kv := constant.BoolVal(k.Value)
+				// (x == kv) is t  =>  x is (kv == t) for EQL, (kv != t) for NEQ
+				val := kv == t
+				if b.Op == token.NEQ {
+					val = kv != t
+				}
+				out = appendFact(out, pr[0], val)
+			}
+		}
+	}
 	return out
 }
 
@@ -701,4 +715,57 @@ func forwardedStore(load *ssa.UnOp, a *ssa.Alloc) (ssa.Value, bool) {
 		}
 	}
 	return val, val != nil
+}
+
+// ResolvedCall is a call of `target` made by fn directly or through thin own wrappers (functions that
+// pass their own parameters on): Args are target's arguments (receiver first for methods) expressed as
+// values of fn, nil where a wrapper computes the argument itself.
+type ResolvedCall struct {
+	Site ssa.CallInstruction // the call instruction in fn
+	Args []ssa.Value
+	Via  []*ssa.Function
+}
+
+// CallsThrough finds the calls of target in fn, looking through own wrapper functions up to `depth` levels.
+func (p *Program) CallsThrough(fn *ssa.Function, target *types.Func, depth int) []ResolvedCall {
+	var out []ResolvedCall
+	Instrs(fn, func(in ssa.Instruction) {
+		ci, ok := in.(ssa.CallInstruction)
+		if !ok {
+			return
+		}
+		f := Callee(ci)
+		if f == nil {
+			return
+		}
+		if f == target {
+			out = append(out, ResolvedCall{Site: ci, Args: append([]ssa.Value{}, ci.Common().Args...)})
+			return
+		}
+		if depth <= 0 || ci.Common().IsInvoke() || !p.IsOwn(f.Pkg()) {
+			return
+		}
+		w := ci.Common().StaticCallee()
+		if w == nil || w.Blocks == nil || w == fn {
+			return
+		}
+		for _, inner := range p.CallsThrough(w, target, depth-1) {
+			args := make([]ssa.Value, len(inner.Args))
+			for i, a := range inner.Args {
+				a = Unwrap(a)
+				switch y := a.(type) {
+				case *ssa.Parameter:
+					for k, pr := range w.Params {
+						if pr == y && k < len(ci.Common().Args) {
+							args[i] = ci.Common().Args[k]
+						}
+					}
+				case *ssa.Const:
+					args[i] = y
+				}
+			}
+			out = append(out, ResolvedCall{Site: ci, Args: args, Via: append([]*ssa.Function{w}, inner.Via...)})
+		}
+	})
+	return out
 }
